@@ -533,6 +533,16 @@ func Edits(d *Dialect) []Edit {
 			Edit{"user_defined_type_changed", []string{"col:ud"}, func(s *schema.Schema) {
 				C(T(s, "t"), "ud").Type.Type = &postgres.UserDefinedType{T: "citext"}
 			}, []string{mt("ModifyColumn(ud)[type]")}},
+			// the NULLS ordering of an index part, on a part without an operator class.
+			Edit{"index_part_desc_nulls_last", []string{"idx:idx_a"}, func(s *schema.Schema) {
+				p := I(T(s, "t"), "idx_a").Parts[0]
+				p.Desc = true
+				p.Attrs = append(p.Attrs, &postgres.IndexColumnProperty{NullsLast: true})
+			}, []string{mt("ModifyIndex(idx_a)[parts]")}},
+			Edit{"index_part_asc_nulls_first", []string{"idx:idx_a"}, func(s *schema.Schema) {
+				p := I(T(s, "t"), "idx_a").Parts[0]
+				p.Attrs = append(p.Attrs, &postgres.IndexColumnProperty{NullsFirst: true})
+			}, []string{mt("ModifyIndex(idx_a)[parts]")}},
 			Edit{"varbit_unlimited_to_len_1", []string{"col:bv"}, func(s *schema.Schema) { C(T(s, "t"), "bv").Type.Type = &postgres.BitType{T: "bit varying", Len: 1} }, []string{mt("ModifyColumn(bv)[type]")}},
 			Edit{"varbit_unlimited_to_len_8", []string{"col:bv"}, func(s *schema.Schema) { C(T(s, "t"), "bv").Type.Type = &postgres.BitType{T: "bit varying", Len: 8} }, []string{mt("ModifyColumn(bv)[type]")}},
 			Edit{"bit_1_to_bit_8", []string{"col:bt"}, func(s *schema.Schema) { C(T(s, "t"), "bt").Type.Type = &postgres.BitType{T: "bit", Len: 8} }, []string{mt("ModifyColumn(bt)[type]")}},
